@@ -7,6 +7,7 @@ import (
 	cryptotypes "github.com/cosmos/cosmos-sdk/crypto/types"
 	"github.com/cosmos/cosmos-sdk/telemetry"
 	sdk "github.com/cosmos/cosmos-sdk/types"
+	sdkerrors "github.com/cosmos/cosmos-sdk/types/errors"
 )
 
 func (k msgServer) CreateAccount(goCtx context.Context, msg *types.MsgCreateAccount) (*types.MsgCreateAccountResponse, error) {
@@ -19,6 +20,10 @@ func (k msgServer) CreateAccount(goCtx context.Context, msg *types.MsgCreateAcco
 	if err != nil {
 		k.Logger(ctx).Error("create account parsing error", "error", err.Error())
 		return nil, err
+	}
+	if existingAccount := k.authKeeper.GetAccount(ctx, accAddress); existingAccount != nil {
+		k.Logger(ctx).Error("create account - account already exists", "address", accAddress.String())
+		return nil, sdkerrors.Wrapf(sdkerrors.ErrInvalidRequest, "account %s already exists", accAddress.String())
 	}
 	newAccount := k.authKeeper.NewAccountWithAddress(ctx, accAddress)
 
@@ -35,7 +40,7 @@ func (k msgServer) CreateAccount(goCtx context.Context, msg *types.MsgCreateAcco
 		k.Logger(ctx).Error("new account set pub key error", "error", err.Error())
 		return nil, err
 	}
-	k.Logger(ctx).Debug("auth keeper set account", "newAccount", newAccount.String())
+	k.Logger(ctx).Debug("auth keeper set account", "newAccount", newAccount.GetAddress().String())
 	k.authKeeper.SetAccount(ctx, newAccount)
 
 	return &types.MsgCreateAccountResponse{AccountNumber: fmt.Sprint(newAccount.GetAccountNumber())}, nil
